@@ -53,7 +53,7 @@ CfgNoFixAll == {C(p, nw, FALSE, FALSE) : p \in {1, 5, 6}, nw \in 1 .. 2}
 CfgNoFixForkJoin == {C(p, nw, FALSE, inl) : p \in {2, 3, 4}, nw \in 0 .. 2, inl \in BOOLEAN}
 (* the repaired waiters: every program, every pool size *)
 CfgCover == {C(1, 1, TRUE, FALSE)}
-CfgQuick == {C(p, 1, TRUE, FALSE) : p \in 1 .. 6} \cup {C(p, 2, TRUE, FALSE) : p \in {1, 3, 5}}
+CfgQuick == {C(p, 1, TRUE, FALSE) : p \in 1 .. 6} \cup {C(p, 2, TRUE, FALSE) : p \in {1, 5}}
             \cup {C(p, 0, TRUE, FALSE) : p \in {1, 3, 4}} \cup {C(p, 1, TRUE, TRUE) : p \in {2, 4}}
 (* known finding: a waiter steals a task that blocks on work suspended beneath it on the same stack *)
 CfgInversion == {C(p, nw, TRUE, FALSE) : p \in {7, 8}, nw \in 1 .. 2}
